@@ -116,6 +116,30 @@ def generate(ctx):
             if not ta.startswith('20') and not tb.startswith('20'):
                 for x, y in ((ta, tb), (ta, eb), (ea, tb)):
                     ctx.add('compare %s %s' % (x, y), meta=('cmp', gen.text_form(a) if x == ta else a, gen.text_form(b) if y == tb else b))
+    # numbers of every width against each other: each pool float against its integer neighbours, and a sample of all pairs
+    nums = [('i', x) for x in gen.INT_POOL] + [('u', x) for x in gen.UINT_POOL] + [('d', x) for x in gen.FLOAT_POOL + gen.SPECIAL_FLOATS]
+    pairs = []
+    for f in gen.FLOAT_POOL:
+        x = gen.bits_to_float(f)
+        if abs(x) < 2.0 ** 70 and x == int(x):
+            for d in (-1, 0, 1):
+                z = int(x) + d
+                if 0 <= z <= gen.U64_MAX:
+                    pairs.append((('d', f), ('u', z)))
+                if gen.I64_MIN <= z <= gen.I64_MAX:
+                    pairs.append((('d', f), ('i', z)))
+        for z in (gen.U64_MAX, gen.I64_MAX, gen.I64_MIN, 1 << 63):
+            pairs.append((('d', f), ('u', z) if z >= 0 else ('i', z)))
+    for _ in range(ctx.scale(1500, 40000)):
+        pairs.append((r.choice(nums), r.choice(nums)))
+    for j, (x, y) in enumerate(pairs):
+        if j % 3 == 1:
+            x, y = ('a', [('s', b'p'), x]), ('a', [('s', b'p'), y])
+        elif j % 3 == 2:
+            x, y = ('o', [(b'k', x)]), ('o', [(b'k', y)])
+        ex, ey = gen.hexarg(gen.enc(x)), gen.hexarg(gen.enc(y))
+        ctx.add('compare %s %s' % (ex, ey), meta=('cmp', x, y))
+        ctx.add('compare %s %s' % (ey, ex), meta=('cmp', y, x))
     # the seven cross-kind ranks, nested and at top level
     reps = [('b', False), ('b', True), ('u', 5), ('s', b'x'), ('o', [(b'k', ('n',))]), ('a', [('n',)]), ('n',)]
     for x in reps:
